@@ -163,7 +163,17 @@ def body(ctx, desc, x):
     kw.update(s.save_kw)
     fp = ser.open_channel(ctx)
     s.tree.save(fp, **kw)
+    if s.meta and kw["meta"] != s.meta:
+        return "writer:caller-meta-dict-changed"
     got = ser.read_doc(ctx, fp, None)
+    # a second save with the same argument objects but all maps off must not
+    # inherit anything from the first one
+    kw2 = dict(kw, key_map=False, value_map=False)
+    fp2 = ser.open_channel(ctx)
+    s.tree.save(fp2, **kw2)
+    got2 = ser.read_doc(ctx, fp2, None)
+    if "$key_map" in got2["meta"] or "$value_map" in got2["meta"]:
+        return "writer:second-save-inherits-maps"
     want = ser.encode(s, s.tree.calc_data_id if s.fl in ("str", "strids", "typed") else hash)
     c = ser.doc_equal(got, want)
     if c:
